@@ -1,4 +1,4 @@
 From Coq Require Import Extraction ExtrOcamlBasic.
 From PP Require Import Utf8.Utf8Defs.
 Extraction "model.ml" Z.of_N Z.to_N Z.of_nat Z.to_nat N.of_nat N.to_nat N.add N.mul Z.opp
-  decode_utf8 iterate_utf8 is_utf8 remove_invalid_utf8 pair_row compose3 compose4 table37_len trail37 utf8_encode scalar_of kUnicodeError.
+  decode_utf8 iterate_utf8 is_utf8 remove_invalid_utf8 pair_row compose3 compose4 table37_len trail37 utf8_encode scalar_of kUnicodeError strip_spaces.
